@@ -418,5 +418,46 @@ def Bundles.formatMessagesSync (b : Bundles I L A N T RE BE) (keys : List (Key I
     reply b ((formatMessagesFromIter c keys errors).map fun (r, es, u) => (Except.ok r, es, u))
   | .stream _ => .done (.error .syncRequestInAsyncMode, errors, b)
 
+/-! ## histories of requests on one instance (what the driver and the harness run) -/
+
+/-- one operation of a history: the six request APIs, and `errors.clear()` by the caller -/
+inductive Request (I A : Type) where
+  | value (key : Key I A)
+  | valueSync (key : Key I A)
+  | values (keys : List (Key I A))
+  | valuesSync (keys : List (Key I A))
+  | messages (keys : List (Key I A))
+  | messagesSync (keys : List (Key I A))
+  | clear
+
+inductive Response (I L N T RE BE : Type) where
+  | value (r : Option T)
+  | valueSync (r : Except (LocErr I L RE BE) (Option T))
+  | values (r : List (Option T))
+  | valuesSync (r : Except (LocErr I L RE BE) (List (Option T)))
+  | messages (r : List (Option (L10nMessage N T)))
+  | messagesSync (r : Except (LocErr I L RE BE) (List (Option (L10nMessage N T))))
+  | cleared
+
+def Bundles.handle (b : Bundles I L A N T RE BE) (req : Request I A) (errors : Errs I L RE BE) :
+    Reply (Response I L N T RE BE) I L A N T RE BE :=
+  match req with
+  | .value k => (b.formatValue k.id k.args errors).map fun (r, es, b) => (.value r, es, b)
+  | .valueSync k => (b.formatValueSync k.id k.args errors).map fun (r, es, b) => (.valueSync r, es, b)
+  | .values ks => (b.formatValues ks errors).map fun (r, es, b) => (.values r, es, b)
+  | .valuesSync ks => (b.formatValuesSync ks errors).map fun (r, es, b) => (.valuesSync r, es, b)
+  | .messages ks => (b.formatMessages ks errors).map fun (r, es, b) => (.messages r, es, b)
+  | .messagesSync ks => (b.formatMessagesSync ks errors).map fun (r, es, b) => (.messagesSync r, es, b)
+  | .clear => .done (.cleared, [], b)
+
+/-- a whole history: after every operation, the response, the `errors` vector and the instance -/
+def Bundles.run (b : Bundles I L A N T RE BE) (errors : Errs I L RE BE) :
+    List (Request I A) →
+    Outcome (List (Response I L N T RE BE × Errs I L RE BE × Bundles I L A N T RE BE))
+  | [] => .done []
+  | req :: reqs =>
+    (b.handle req errors).bind fun (r, errors', b') =>
+      (b'.run errors' reqs).bind fun rest => .done ((r, errors', b') :: rest)
+
 end
 end FluentModel.Fallback
